@@ -13,6 +13,7 @@
 #include <dirent.h>
 #include <filesystem>
 #include <fstream>
+#include <map>
 #include <memory>
 #include <set>
 #include <sys/resource.h>
@@ -23,7 +24,7 @@ using namespace tulz;
 namespace vf {
 namespace {
 
-enum K { MKDIR = 0, MKFILE, STR_LAW, STR_ANY, V_PUSH_CTOR, V_PUSH_DEFAULT, V_SET, V_VISIT, V_RESTORE, V_POP, V_CHDIR, NK };
+enum K { MKDIR = 0, MKFILE, STR_LAW, STR_ANY, V_PUSH_CTOR, V_PUSH_DEFAULT, V_SET, V_VISIT, V_RESTORE, V_POP, V_CHDIR, MKCHAIN, NK };
 
 std::string gen_name(int a, int b) {
     static const char *fixed[] = {"a", "b.txt", ".hidden", "..rc", "...", "with space", "\xc3\xbc\xc3\xaf", "\xff\xfe", "back\\slash", "-dash", "x..y", "UPPER",
@@ -44,6 +45,10 @@ int open_fds() { int n = 0; if (DIR *d = opendir("/proc/self/fd")) { while (read
 
 struct Node { std::string path; bool dir; uintmax_t size; };
 
+// expected directory totals, computed before the descriptor limit is tightened (a recursive_directory_iterator holds one
+// descriptor per level, which the tight limit would deny the ORACLE on deep trees)
+std::map<std::string, uintmax_t> g_totals;
+
 void compare_node(const Node &n, const char *how, const std::string &p) {
     Path tp(p);
     fs::path fp(n.path);
@@ -58,7 +63,8 @@ void compare_node(const Node &n, const char *how, const std::string &p) {
     }
     if (isd) {
         uintmax_t sum = 0;
-        for (auto &e : fs::recursive_directory_iterator(fp)) if (e.is_regular_file()) sum += e.file_size();
+        if (auto it = g_totals.find(n.path); it != g_totals.end()) sum = it->second;
+        else for (auto &e : fs::recursive_directory_iterator(fp)) if (e.is_regular_file()) sum += e.file_size();
         size_t got = tp.size();
         if (got != sum) violation("FS", "%s %s: size() of the directory = %zu, total size of the regular files beneath it = %ju", how, shown(p).c_str(), got, sum);
         std::multiset<std::string> want, have;
@@ -89,6 +95,7 @@ void run_c18(const Case &c) {
     static const size_t sizes[] = {0, 0, 1, 100, 4096, 4097, 65536, 0, 7};
     bool has_empty_dir = false, has_nonascii = false, str_nt = false;
     int maxdepth = 0;
+    bool chain_done = false;
 
     // ---- DirectoryVisitor stack (strictly nested use)
     struct V { std::unique_ptr<DirectoryVisitor> v; std::string dir; bool visited = false; std::string before; };
@@ -194,6 +201,24 @@ void run_c18(const Case &c) {
             note("op %d: %s %s", opno, o.k == MKDIR ? "mkdir" : "mkfile", shown(p).c_str());
             break;
         }
+        case MKCHAIN: {
+            // "any depth": one chain of 28..72 (thorough ..177) nested directories with a small file on some levels. Path needs O(1)
+            // descriptors whatever the depth; the comparison below runs under a limit of (open + 24)
+            if (chain_done || (o.c & 0xC0) != 0) { done = false; break; }
+            size_t pi = (unsigned)o.a % dirs.size();
+            if (depth[pi] > 4) { done = false; break; }
+            int L = 28 + (int)((unsigned)o.b % (thorough ? 150u : 45u));
+            std::string p = nodes[dirs[pi]].path; int dd = depth[pi];
+            unsigned every = 1 + (unsigned)o.c % 5;
+            for (int i = 0; i < L; ++i) {
+                p += "/c"; std::error_code ec;
+                if (fs::exists(p, ec) || ec || !fs::create_directory(p, ec) || ec) break;
+                nodes.push_back(Node{p, true, 0}); dirs.push_back(nodes.size() - 1); depth.push_back(++dd); maxdepth = std::max(maxdepth, dd);
+                if ((unsigned)i % every == 0 || i == L - 1) { std::ofstream f(p + "/f", std::ios::binary); f.write("7 bytes", 7); f.close(); nodes.push_back(Node{p + "/f", false, 7}); }
+            }
+            chain_done = true; label("deep_chain"); label_n("chain_depth", (long)dd);
+            break;
+        }
         case STR_LAW: {
             // d: non-empty directory string from segments and separators; n: non-empty separator-free name
             std::string d;
@@ -266,6 +291,8 @@ void run_c18(const Case &c) {
 
     // ---- filesystem differential over every node, several passes under a tight descriptor limit
     for (size_t di : dirs) { bool any = false; for (auto &e : fs::directory_iterator(nodes[di].path)) { (void)e; any = true; break; } if (!any && di != 0) has_empty_dir = true; }
+    g_totals.clear();
+    for (size_t di : dirs) { uintmax_t sum = 0; for (auto &e : fs::recursive_directory_iterator(nodes[di].path)) if (e.is_regular_file()) sum += e.file_size(); g_totals[nodes[di].path] = sum; }
     int fd0 = open_fds();
     struct rlimit rl; getrlimit(RLIMIT_NOFILE, &rl); struct rlimit tight = rl; tight.rlim_cur = std::min<rlim_t>(rl.rlim_cur, (rlim_t)fd0 + 24); setrlimit(RLIMIT_NOFILE, &tight);
     for (int pass = 0; pass < 3; ++pass) {
